@@ -159,12 +159,12 @@ Proof.
                  /\ s_rolled st2 = s_rolled st /\ s_err st2 = s_err st /\ s_log st2 = s_log st).
     { unfold st2. destruct (nearest_cached st1 rest); destruct (is_cached st (fst i)); repeat split. }
     destruct H2 as (A & B & C & D & E & F).
-    destruct (if is_cached st (fst i) then Some i else nearest_cached st1 rest) as [t|].
-    + pose proof (pop_refs_fields st2 (List.length rest) t (s_refstack st2)) as P.
-      destruct (pop_refs st2 (List.length rest) t (s_refstack st2)) as [st3 rs]. simpl in P.
+    destruct (is_cached st (fst i)).
+    + pose proof (pop_refs_fields st2 (List.length rest) i (s_refstack st2)) as P.
+      destruct (pop_refs st2 (List.length rest) i (s_refstack st2)) as [st3 rs]. simpl in P.
       destruct P as (A' & B' & C' & D' & E' & F').
       simpl. unfold static in *. simpl. repeat split; congruence.
-    + simpl. unfold static in *. simpl. repeat split; congruence.
+    + destruct rest; simpl; unfold static in *; simpl; repeat split; congruence.
 Qed.
 
 Lemma rollback_frame_fields st ln :
